@@ -701,3 +701,25 @@ def replay_same_print_history(p):
                     {k: c[k] for k in p["splitters"]}, show(a), {k: twin[k] for k in p["splitters"]}, show(b)))
     return {"reproduced": bool(problems), "expected": "values that print identically share a bucket",
             "observed": "; ".join(problems[:2]) or "all twins agree"}
+
+
+TRICKY_KEYS = ["", "a", "abc", "user-42", "\x00", "\x7f", "\x80", "é", "é", "Zoë", "ñ", "한",
+               "Å", "Ω", "क़", "ạ̇", "ﬁ", "Ａ", "ß", "İ", "ǆ", "ẛ̣", "a‍b", "‮abc",
+               "﻿x", "🙂", "👨‍👩‍👧", "中文", " x ", "x\n", "\tx", "X", "Straße", "ı", "ſ", "K", "x" * 1000,
+               "%s", "{0}", "1", "1.0", "True", "None", "-0.0", "1e5", "0x10", "\\", "'", '"', "\r\n", " ", " x "]
+
+
+@register("proba_search")
+def replay_proba_search(p):
+    """deterministic_proba(key) == top32(MD5(utf8(key)))/2^32 on the witness key and on a list of tricky keys"""
+    from pyab_experiment.binning.binning import deterministic_proba
+    from vf.ref.scheme import py_position_k
+    keys = [dec(p["key"])] + TRICKY_KEYS
+    bad = []
+    for key in keys:
+        o = outcome_of(lambda: deterministic_proba(key))
+        want = py_position_k(key) / 2 ** 32
+        if not (o[0] == "value" and isinstance(o[1], float) and o[1] == want):
+            bad.append("key %r: %s, scheme %r" % (key, show(o), want))
+    return {"reproduced": bool(bad), "expected": "top 32 bits of MD5(UTF-8(key)) / 2^32 for every key",
+            "observed": "; ".join(bad[:3]) or "agrees on the witness and %d tricky keys" % len(TRICKY_KEYS)}
